@@ -55,6 +55,17 @@ func calleeName(c *ssa.CallCommon) string {
 	if b, ok := c.Value.(*ssa.Builtin); ok {
 		return b.Name()
 	}
+	// call of a func-typed struct field: name it after the field
+	if u, ok := c.Value.(*ssa.UnOp); ok {
+		if fa, ok := u.X.(*ssa.FieldAddr); ok {
+			if pt, ok := fa.X.Type().Underlying().(*types.Pointer); ok {
+				if st, ok := pt.Elem().Underlying().(*types.Struct); ok {
+					tn := types.TypeString(pt.Elem(), func(*types.Package) string { return "" })
+					return "funcfield:" + tn + "." + st.Field(fa.Field).Name()
+				}
+			}
+		}
+	}
 	return "func-value"
 }
 
@@ -605,8 +616,13 @@ func (vc *FnVC) havocCall(in *ssa.Call, name string) {
 			args = append(args, mc.Bindings...)
 		}
 	}
-	for _, a := range args {
-		vc.havocArg(a, in.Pos(), name)
+	if vc.prog != nil && vc.prog.isReadonlyArgs(name) {
+		vc.havocked[name+" [arguments read-only by directive]"] = true
+		delete(vc.havocked, name)
+	} else {
+		for _, a := range args {
+			vc.havocArg(a, in.Pos(), name)
+		}
 	}
 	vc.noteMutation(name)
 	if c.IsInvoke() {
@@ -761,8 +777,18 @@ func (vc *FnVC) versionOf(recv string) string {
 	if v, ok := vc.versionCtr[""]; ok {
 		return v
 	}
-	v := vc.freshConst("ver", "Int")
+	v := vc.entryVersion()
 	vc.versionCtr[""] = v
+	return v
+}
+
+// entryVersion: the world-state version at function entry (used by old(observe(...))).
+func (vc *FnVC) entryVersion() string {
+	if v, ok := vc.versionCtr["@entry"]; ok {
+		return v
+	}
+	v := vc.declConst("ver$entry", "Int")
+	vc.versionCtr["@entry"] = v
 	return v
 }
 
@@ -771,9 +797,8 @@ func (vc *FnVC) bumpVersion(recv ssa.Value) {
 }
 
 func (vc *FnVC) bumpAllVersions() {
-	for k := range vc.versionCtr {
-		vc.versionCtr[k] = vc.freshConst("ver", "Int")
-	}
+	vc.entryVersion()
+	vc.versionCtr[""] = vc.freshConst("ver", "Int")
 }
 
 // pureObserver: result is an uninterpreted function of (receiver, args, version).
